@@ -455,3 +455,105 @@ Definition tsv_flat
   | Err c => [1; c]
   | Ok rows => 0 :: flat_map (fun r => len r :: r) rows
   end.
+
+(* ---- Export.hdf5: default feature list, metadata, logs/tables flags ---------
+   `features=None` means ds.features_innate (features provided by basins are
+   then not written but left to the basins); `features=[]` writes no feature.
+   The `basins` flag adds basin definitions (property C07) and never changes
+   which feature events are written.  Metadata: the event count (see
+   event_count), the run identifier ("<measurement identifier>-<4 hex>" when
+   filtered, else unchanged; uuid4 is an oracle value [rnd]), every other key
+   (here: the sample name) unchanged; the source's logs / tables are stored
+   (with the prefix) exactly when the flag is set. *)
+Record smeta := mkSmeta {
+  sm_runid : option Z;        (* config["experiment"]["run identifier"] *)
+  sm_hashid : option Z;       (* md5(time_date_setup identifier), if defined *)
+  sm_sample : Z;
+  sm_logs : list Z;           (* names of the (non-empty) logs *)
+  sm_tables : list Z }.
+
+Record ometa := mkOmeta {
+  om_runid : option (option Z * option Z);   (* (identifier, random suffix) *)
+  om_sample : Z;
+  om_count : Z;
+  om_logs : list Z;
+  om_tables : list Z }.
+
+(* RTDCBase.get_measurement_identifier *)
+Definition meas_id (sm : smeta) : option Z :=
+  match sm_runid sm with Some r => Some r | None => sm_hashid sm end.
+
+Definition export_meta (rnd : Z) (sm : smeta) (filtered logs tables : bool)
+           (cnt : Z) : ometa :=
+  {| om_runid := if filtered then Some (meas_id sm, Some rnd)
+                 else match sm_runid sm with
+                      | Some r => Some (Some r, None)
+                      | None => None
+                      end;
+     om_sample := sm_sample sm;
+     om_count := cnt;
+     om_logs := if logs then sm_logs sm else [];
+     om_tables := if tables then sm_tables sm else [] |}.
+
+Definition req_features (features : option (list Z)) (innate : list Z) : list Z :=
+  match features with None => innate | Some l => l end.
+
+Definition export_full (A : Type) (d z : A) (enum : Z -> A) (rnd cfg : Z)
+           (ds : dset A) (innate : list Z) (sm : smeta) (filt : list bool)
+           (filtered skip logs tables basins : bool)
+           (features : option (list Z)) : res (list (call A) * ometa) :=
+  bind (export A d z enum cfg ds filt filtered skip (req_features features innate))
+       (fun r => Ok (fst r, export_meta rnd sm filtered logs tables (snd r))).
+
+(* number of events every stored array holds when the length check is on *)
+Definition spec_count (filtered : bool) (filt : list bool) (lim : option Z) : Z :=
+  match lim with
+  | Some l => if filtered then len (filter (fun i => i <? l) (where_ filt)) else l
+  | None => 0
+  end.
+
+(* direct call of store_filtered_feature: case = (cfg, feature, filter) *)
+Definition sff_flat
+  (case : Z * (Z * Z * list (Z * Z * Z * Z * list Z)) * list bool) : list Z :=
+  let '(cfg, ft, filt) := case in
+  let f := dfeat ft in
+  match store_filtered Z (-7) 0 (fun k => k) cfg f filt with
+  | Err c => [1; c]
+  | Ok calls => 0 :: enc_feat_content calls f
+  end.
+
+Definition oz (o : option Z) : list Z :=
+  match o with None => [0] | Some v => [1; v] end.
+
+(* full case = (export case, (features given?, innate names),
+               (logs, tables, basins), (runid, hashid, sample, logs, tables));
+   rnd is fixed to 7: the harness only observes whether a suffix is there *)
+Definition export_full_flat
+  (case : ((Z * Z * Z * Z) * list (Z * Z * list (Z * Z * Z * Z * list Z))
+           * list bool * (Z * Z) * list Z)
+          * (Z * list Z) * (Z * Z * Z)
+          * (list Z * list Z * Z * list Z * list Z)) : list Z :=
+  let '(ec, (given, innate), (logs, tables, basins), (rid, hid, smp, lgs, tbs)) := case in
+  let '(hd, fts, filt, fl, req) := ec in
+  let '(cfg, h5, n, cnt) := hd in
+  let '(filtered, skip) := fl in
+  let ds := mkDs Z (zb h5) n cnt (map dfeat fts) in
+  let o2 := fun l => match l with [] => None | x :: _ => Some x end in
+  let sm := mkSmeta (o2 rid) (o2 hid) smp lgs tbs in
+  let feats := if zb given then Some req else None in
+  match export_full Z (-7) 0 (fun k => k) 7 cfg ds innate sm filt (zb filtered)
+                    (zb skip) (zb logs) (zb tables) (zb basins) feats with
+  | Err c => [1; c]
+  | Ok (calls, om) =>
+      [0; om_count om] ++
+      match lookup_all Z ds (sortset (req_features feats innate)) with
+      | Ok fs => flat_map (enc_feat_content calls) fs
+      | Err _ => []
+      end
+      ++ [-2] ++
+      match om_runid om with
+      | None => [0]
+      | Some (i, s) => [1] ++ oz i ++ [match s with None => 0 | Some _ => 1 end]
+      end
+      ++ [om_sample om; len (om_logs om); len (om_tables om)]
+  end.
